@@ -543,7 +543,12 @@ fn short_id(task_id: &str) -> String {
     if task_id.len() <= SHORT_LEN {
         task_id.to_string()
     } else {
-        task_id[..SHORT_LEN].to_string()
+        // Task ids come from frames: cut on a char boundary.
+        let mut cut = SHORT_LEN;
+        while cut > 0 && !task_id.is_char_boundary(cut) {
+            cut -= 1;
+        }
+        task_id[..cut].to_string()
     }
 }
 
